@@ -363,7 +363,7 @@ func genAuthCase(t *rapid.T) AuthCase {
 		UserInfo: rapid.Bool().Draw(t, "userinfo"),
 		Methods:  rapid.Permutation([]int{0, 1, 2}).Draw(t, "methods")[:rapid.IntRange(1, 3).Draw(t, "nmethods")],
 	}
-	c.Perturb = rapid.SampledFrom([]string{"", "", "user", "pass", "realm", "nonce", "method", "algorithm", "url", "scheme", "setup-base", "setup-base-noslash"}).Draw(t, "perturb")
+	c.Perturb = rapid.SampledFrom([]string{"", "", "user", "pass", "realm", "nonce", "method", "algorithm", "url", "scheme", "setup-base", "setup-base-noslash", "legacy-md5"}).Draw(t, "perturb")
 	switch c.Perturb {
 	case "user":
 		c.Alt = differs(t, userGen, c.User, "alt")
